@@ -65,8 +65,13 @@ OpenFlowChecks(s, t, u, feeAsset, fee) ==
             /\ \A a \in Rewards : IF a = f.asset THEN t.rbal[a] -- s.rbal[a] = f.funded ELSE s.rbal[a] \preceq t.rbal[a]>>,
      <<"C12.openflow.fee-to-collector",
         \A a \in Rewards : t.col[a] -- s.col[a] = (IF a = feeAsset THEN fee ELSE Zero)>> >>
-ExpandFlowChecks(s, t, id) ==
-  LET f0 == FlowById(s, id)  f1 == FlowById(t, id) IN
+\* A flow is named by its id or by its label (labels need not be unique: ident = [k |-> "id" | "label", id, label])
+Carries(f, ident) == IF ident.k = "id" THEN f.id = ident.id ELSE f.label = ident.label
+ExpandFlowChecks(s, t, ident) ==
+  \* the flow the expansion touched is read off the state: the one whose record changed
+  LET changed == { s.flows[i].id : i \in { j \in DOMAIN s.flows : FlowById(t, s.flows[j].id) # s.flows[j] } }
+      f0 == IF changed = {} THEN [id |-> -1] ELSE FlowById(s, CHOOSE x \in changed : TRUE)
+      f1 == IF changed = {} THEN [id |-> -1] ELSE FlowById(t, f0.id) IN
   \* a flow older than the expansion limit is re-based by the expansion (claimed := 0, funded := what was left), so the
   \* clause speaks about funded minus claimed, which the tokens received must raise by exactly their amount
   << <<"C12.expandflow.funded-grows-by-tokens-received",
@@ -76,11 +81,15 @@ ExpandFlowChecks(s, t, id) ==
         /\ \A a \in Rewards : t.rbal[a] -- s.rbal[a] =
               (IF a = f0.asset THEN (f1.funded -- f1.claimed) -- (f0.funded -- f0.claimed) ELSE Zero)>>,
      <<"C12.expandflow.other-flows-untouched",
-        \A i \in DOMAIN s.flows : s.flows[i].id # id => FlowById(t, s.flows[i].id) = s.flows[i]>> >>
-CloseFlowChecks(s, t, caller, id, callerIsOwner) ==
-  LET f == FlowById(s, id) IN
+        Cardinality(changed) = 1 /\ Carries(f0, ident) /\ Len(t.flows) = Len(s.flows)>> >>
+CloseFlowChecks(s, t, caller, ident, callerIsOwner) ==
+  \* the flow that was closed is read off the state: the one that is gone
+  LET gone == { s.flows[i].id : i \in DOMAIN s.flows } \ { t.flows[i].id : i \in DOMAIN t.flows }
+      f == IF Cardinality(gone) = 1 THEN FlowById(s, CHOOSE x \in gone : TRUE) ELSE [id |-> -1] IN
   << <<"C12.closeflow.only-creator-or-factory-owner", f.id # -1 /\ (callerIsOwner \/ f.creator = caller)>>,
-     <<"C12.closeflow.flow-removed", FlowById(t, id).id = -1 /\ Len(t.flows) = Len(s.flows) - 1>>,
+     <<"C12.closeflow.flow-removed",
+        f.id # -1 /\ Carries(f, ident) /\ Len(t.flows) = Len(s.flows) - 1
+        /\ \A i \in DOMAIN s.flows : s.flows[i].id # f.id => FlowById(t, s.flows[i].id) = s.flows[i]>>,
      <<"C12.closeflow.refund=funded-claimed-to-creator",
         f.id # -1 =>
           /\ s.rbal[f.asset] -- t.rbal[f.asset] = f.funded -- f.claimed
@@ -102,6 +111,41 @@ ClaimChecks(s, t, u, quoted, quoteOk, lastClaimEpoch) ==
      <<"C13.claim.second-claim-in-an-epoch-pays-nothing",
         lastClaimEpoch = s.epoch => \A a \in Rewards : t.rw[u][a] = s.rw[u][a]>>,
      <<"C11.claim.positions-untouched", OthersSame(s, t, {}) /\ t.lpbal = s.lpbal>> >>
+
+\* ----- C13: what one epoch of one flow emits ------------------------------------------------------
+\* A flow f (as read after the claim) carries its expansion history  hist : Seq([e, amt, end])  (from epoch e on the flow
+\* holds amt tokens and ends at end; ascending in e) and its emission ledger  em : Seq([e, x])  (x tokens emitted up to and
+\* including epoch e).  The emission of epoch e is what is left of the flow at e spread evenly over the epochs left:
+\*   emission(e) = floor( (amount at e - emitted up to e-1) / (end at e - e) )
+AtEpoch(f, e) == LET c == SelectSeq(f.hist, LAMBDA h : h.e <= e) IN
+                 IF c = <<>> THEN [amt |-> f.base, end |-> f.end] ELSE [amt |-> c[Len(c)].amt, end |-> c[Len(c)].end]
+FinalEnd(f) == IF f.hist = <<>> THEN f.end ELSE f.hist[Len(f.hist)].end
+EmittedUpTo(f, e) == LET c == SelectSeq(f.em, LAMBDA h : h.e = e) IN IF c = <<>> THEN Zero ELSE c[1].x
+Emission(f, e) ==
+  LET h == AtEpoch(f, e)  before == EmittedUpTo(f, e - 1) IN
+  IF h.end <= e \/ h.amt \preceq before THEN Zero ELSE (h.amt -- before) // N(h.end - e)
+\* the (flow, epoch) pairs a claim made in epoch cur can pay for when the claimer's last claim was in epoch lastClaim
+\* (-1: never): the epochs after the last claim in which the flow runs
+Slots(flows, a, lastClaim, cur) ==
+  { <<i, e>> \in (DOMAIN flows) \X ((lastClaim + 1) .. cur) :
+      flows[i].asset = a /\ flows[i].start <= e /\ e < FinalEnd(flows[i]) }
+\* Every (flow, epoch) is paid with a transfer of its own.  "No claim pays more for an epoch than that epoch's emission":
+\* the transfers can be assigned to distinct (flow, epoch) slots so that none exceeds its slot's emission.  Nothing is
+\* assumed about the order in which the contract pays: such an assignment exists iff, for every transfer, at least as
+\* many slots can carry it as there are transfers at least as large (Hall's condition for nested neighbourhoods).
+EmissionChecks(s, t, u, pays, flows, lastClaim) ==
+  LET Got(a) == LET RECURSIVE G(_)
+                    G(i) == IF i = 0 THEN Zero ELSE (IF pays[i].a = a /\ pays[i].to = u THEN pays[i].x ELSE Zero) ++ G(i - 1)
+                IN G(Len(pays))
+      Fits(a) == LET P == SelectSeq(pays, LAMBDA p : p.a = a)
+                     S == Slots(flows, a, lastClaim, s.epoch)
+                     em == [sl \in S |-> Emission(flows[sl[1]], sl[2])]
+                 IN \A i \in DOMAIN P :
+                      Cardinality({ j \in DOMAIN P : P[i].x \preceq P[j].x }) <= Cardinality({ sl \in S : P[i].x \preceq em[sl] })
+  IN << <<"TRACE.claim.transfers-add-up-to-the-wallet-gain",
+           \A a \in Rewards : Got(a) = t.rw[u][a] -- s.rw[u][a]>>,
+        <<"C13.claim.every-transfer-goes-to-the-claimer", \A i \in DOMAIN pays : pays[i].to = u /\ pays[i].a \in Rewards>>,
+        <<"C13.claim.no-epoch-pays-more-than-that-epoch's-emission", \A a \in Rewards : Fits(a)>> >>
 
 \* ----- C13 ---------------------------------------------------------------------------------------
 StateChecksC13(o) ==
